@@ -413,6 +413,9 @@ func c09Sched(c *vrep.Ctx) {
 			msg = "panic in a concurrent Match: " + s.Panic
 		} else if s.Deadlock != "" {
 			msg = s.Deadlock
+		} else if len(s.Races) > 0 {
+			// access profile: two calls touched one location of shared state, one of them writing
+			msg = s.Races[0].String()
 		} else if s.HorizonHit {
 			msg = ""
 			r.Note = map[string]interface{}{"horizon": true}
